@@ -32,6 +32,11 @@ def key_pool(rnd, fam, deep=False):
     keys = []
     if deep:
         lens = list(range(0, w + 1))
+    elif rnd.random() < 0.3:
+        # lengths at the 8-bit / 32-bit word boundaries of the address (where the C's word arithmetic changes case)
+        edge = [0, 1, 7, 8, 9, 15, 16, 17, 23, 24, 25, 30, 31, 32] if w == 32 else \
+               [0, 1, 31, 32, 33, 63, 64, 65, 95, 96, 97, 126, 127, 128]
+        lens = sorted(set(rnd.choice(edge) for _ in range(rnd.randint(3, 10))))
     else:
         n = rnd.randint(3, 9)
         lens = sorted(set(rnd.choice([rnd.randint(0, w), rnd.randint(0, 8), rnd.randint(max(0, w - 4), w),
@@ -66,7 +71,7 @@ def record_pool(rnd, fam, keys, nsrc):
     recs = []
     for bits, ln in keys:
         for _ in range(rnd.randint(1, 3)):
-            mx = rnd.choice([ln, ln, min(w, ln + 1), w, rnd.randint(ln, w), max(0, ln - 1)])
+            mx = rnd.choice([ln, ln, min(w, ln + 1), w, rnd.randint(ln, w), max(0, ln - 1), 255])
             recs.append((fam, bits, ln, mx, rnd.choice(ASNS), rnd.randint(1, nsrc)))
     return recs
 
@@ -95,6 +100,11 @@ def gen_history(rnd, nops=40, nsrc=3, deep=False, fam=None, nq=30):
     and a block of record-derived queries."""
     fam = fam or rnd.choice("46")
     base, keys = key_pool(rnd, fam, deep)
+    if nops >= 150 and not deep:
+        # wide trie: several unrelated chains
+        for _ in range(rnd.randint(2, 6)):
+            _b, more = key_pool(rnd, fam, False)
+            keys += [k for k in more if k not in keys]
     pool = record_pool(rnd, fam, keys, nsrc)
     present = []
     lines = []
